@@ -39,7 +39,15 @@ def build(root, nodes, seed):
     for i, n in enumerate(nodes):
         if n["k"] == "link":
             full = os.path.join(root, rel[i])
-            tgt = os.path.join(root, rel[n["t"] - 1])
+            ti = n["t"] - 1
+            tgt = os.path.join(root, rel[ti])
+            # the same destination can be spelled through a directory link: when the target lies inside a directory that an
+            # EARLIER link points at, every other such link goes through that link (the text must survive as written)
+            via = [j for j in range(i) if nodes[j]["k"] == "link" and nodes[nodes[j]["t"] - 1]["k"] == "dir"
+                   and rel[ti].startswith(rel[nodes[j]["t"] - 1] + "/")]
+            if via and R.random() < 0.6:
+                j = via[0]
+                tgt = os.path.join(root, rel[j], rel[ti][len(rel[nodes[j]["t"] - 1]) + 1:])
             os.symlink(os.path.relpath(tgt, os.path.dirname(full)), full)
     # modes and times, deepest first so that parents keep theirs
     for i in sorted(range(len(nodes)), key=lambda i: -rel[i].count("/")):
@@ -47,7 +55,9 @@ def build(root, nodes, seed):
         full = os.path.join(root, rel[i])
         if n["k"] == "link":
             continue
-        mode = R.choice([0o400, 0o444, 0o600, 0o640, 0o644, 0o755, 0o777, 0o501]) if n["k"] != "dir" else R.choice([0o500, 0o555, 0o700, 0o750, 0o755, 0o777])
+        # files: also modes without owner-write but with group/other write, execute-only classes, sticky-free 9 bits
+        mode = R.choice([0o400, 0o444, 0o600, 0o640, 0o644, 0o755, 0o777, 0o501, 0o466, 0o420, 0o575, 0o462, 0o406, 0o533, 0o646]) if n["k"] != "dir" \
+            else R.choice([0o500, 0o555, 0o700, 0o750, 0o755, 0o777, 0o577, 0o571])
         if n["k"] != "dir":
             mode |= 0o400
         os.chmod(full, mode)
